@@ -93,6 +93,13 @@ def run(chk):
                         gq = sorted((D.version_key(o) for o in st.query([Filter('type', '=', t)])), key=repr)
                         wq = sorted((k for k in model.items if k[0].startswith(t + '--')), key=repr)
                         if gq != wq: return (f'{sname}#query == stored objects satisfying it', f'{[(labels[i], f) for i, f in hist]}: {sname}.query(type={t}) = {gq}, list model {wq}', {})
+                # the two stores give the same answer to filters on defaulted properties and on timestamps in another spelling (whatever the files look like)
+                for f in (Filter('revoked', '=', False), Filter('revoked', '!=', True), Filter('created', '=', '2020-01-01T00:00:00Z'), Filter('modified', '>=', '2020-01-01T00:00:00Z'),
+                          Filter('modified', '>', '2020-01-01T00:00:00Z'), Filter('modified', '=', '2020-01-01T00:00:00.50Z')):
+                    try: a = sorted((D.version_key(o) for o in mem.query([f])), key=repr); b = sorted((D.version_key(o) for o in fs.query([f])), key=repr)
+                    except (TypeError, ValueError): continue
+                    reg = lambda ks: [k for k in ks if not k[0].startswith('x-vf-unreg')]          # (dictionary-kept custom content compares timestamps as text: the known finding)
+                    if reg(a) != reg(b): return ('stores agree#query on a defaulted property or a respelled timestamp', f'{[(labels[i], f_) for i, f_ in hist]}: query({f}) gives {reg(a)} in memory and {reg(b)} on the filesystem', {})
                 # save / load round trip of the memory store
                 fpath = os.path.join(root, 'saved.json'); mem.save_to_file(fpath)
                 mem2 = MemoryStore(allow_custom=True); mem2.load_from_file(fpath)
@@ -105,6 +112,41 @@ def run(chk):
             return None
         chk.bounded('add histories x input forms x both stores vs list model', list(histories()), check, classify=lambda h: tuple(i for i, _ in h),
                     bound='17-object pool, reads between additions, 6 input forms rotated over the positions, histories of length <= ' + ('4 (all triples, every 31st quadruple)' if chk.tier == 'thorough' else '3 (all pairs, every 9th triple)'))
+        # a bundle holding objects of both spec versions: every member is kept as the version it declares, through every way a bundle reaches a store
+        import stix2.utils as SU0
+        o20 = {'type': 'campaign', 'id': 'campaign--' + D.U(50), 'created': '2020-01-01T00:00:00.000Z', 'modified': '2020-01-01T00:00:00.000Z', 'name': 'old'}
+        o21 = {'type': 'campaign', 'spec_version': '2.1', 'id': 'campaign--' + D.U(51), 'created': '2020-01-01T00:00:00.000Z', 'modified': '2020-01-01T00:00:00.000Z', 'name': 'new'}
+        def mixed_cases():
+            for order in ((o20, o21), (o21, o20)):
+                for bver in (None, '2.0'):
+                    for route in ('MemoryStore.add(dict)', 'FileSystemStore.add(text)', 'MemoryStore(stix_data)', 'MemoryStore.load_from_file', 'FileSystemStore.add(dict)', 'save_to_file then load_from_file'):
+                        yield (order, bver, route)
+        nm = [0]
+        def mixed_check(case):
+            order, bver, route = case; nm[0] += 1
+            b = {'type': 'bundle', 'id': 'bundle--' + D.U(52), 'objects': [dict(x) for x in order]}
+            if bver: b['spec_version'] = bver
+            root = os.path.join(tmp, f'm{nm[0]}'); os.makedirs(root)
+            try:
+                if route == 'MemoryStore.add(dict)': st = MemoryStore(allow_custom=True); st.add(copy.deepcopy(b))
+                elif route == 'FileSystemStore.add(text)': st = FileSystemStore(root, allow_custom=True); st.add(json.dumps(b))
+                elif route == 'MemoryStore(stix_data)': st = MemoryStore(stix_data=copy.deepcopy(b), allow_custom=True)
+                elif route == 'MemoryStore.load_from_file':
+                    fp = os.path.join(root, 'b.json'); json.dump(b, open(fp, 'w')); st = MemoryStore(allow_custom=True); st.load_from_file(fp)
+                elif route == 'FileSystemStore.add(dict)': st = FileSystemStore(root, allow_custom=True); st.add(copy.deepcopy(b))
+                else:
+                    st0 = MemoryStore(allow_custom=True); st0.add([stix2.parse(dict(x)) for x in order]); fp = os.path.join(root, 's.json'); st0.save_to_file(fp); st = MemoryStore(allow_custom=True); st.load_from_file(fp)
+            except (stix2.exceptions.STIXError, ValueError) as ex:
+                return None            # (a 2.0 bundle refusing members of another version is a stated limitation, not a silent change)
+            try:
+                for d in order:
+                    g = st.get(d['id'])
+                    if g is None: return ('mixed bundle#member kept', f'{route}: member {d["id"]} of a mixed-version bundle (bundle spec_version {bver}) is not in the store', {})
+                    want_v = SU0.detect_spec_version(dict(d)); have = as_json(g)
+                    if ('spec_version' in have) != ('spec_version' in d) or ('.v21.' in type(g).__module__) != (want_v == '2.1'):
+                        return ('mixed bundle#member keeps the spec version it declares', f'{route}: the {want_v} member of a mixed-version bundle (bundle spec_version {bver}) comes back as {type(g).__module__}.{type(g).__name__} with content {have}', {})
+            finally: shutil.rmtree(root, ignore_errors=True)
+        chk.bounded('bundles holding objects of both spec versions', list(mixed_cases()), mixed_check, classify=lambda c: (c[0][0]['name'], c[1], c[2]), bound='2 member orders x bundle with / without spec_version x 6 routes into memory and filesystem stores')
         # file names are injective on distinct serialized instants
         import stix2.datastore.filesystem as FSM, stix2.utils as SU, datetime as dtm
         seen = {}
